@@ -33,6 +33,7 @@ class Ctx:
         self.replay_dir = os.path.join(VERIF, 'replay')
         os.makedirs(self.replay_dir, exist_ok=True)
         self.ncpu = os.cpu_count() or 4
+        self.replay_key = None
 
     def log(self, msg):
         print('[check %s %s +%.0fs] %s' % (self.pid, self.tier, time.time() - self.t0, msg), flush=True)
@@ -83,7 +84,8 @@ class Ctx:
 
     def run_build(self, cmd, what):
         t = time.time()
-        p = subprocess.run(cmd, cwd=self.repo, env=goenv() | {'CGO_ENABLED': os.environ.get('VERIF_CGO', '0')},
+        cgo = '1' if '-race' in cmd else os.environ.get('VERIF_CGO', '0')
+        p = subprocess.run(cmd, cwd=self.repo, env=goenv() | {'CGO_ENABLED': cgo},
                            stdout=subprocess.PIPE, stderr=subprocess.STDOUT, text=True)
         if p.returncode != 0:
             raise ToolError('build of %s failed:\n%s' % (what, p.stdout[-6000:]))
@@ -148,7 +150,20 @@ class Ctx:
                 if len(f) == 4:
                     self.violations.append((f[1], f[2], f[3]))
                     nviol += 1
-        if p.returncode != 0:
+        if 'WARNING: DATA RACE' in out:
+            # report of the Go race detector (free-running -race twin)
+            i = out.index('WARNING: DATA RACE')
+            rep = out[i:i + 3000]
+            fn = re.search(r'\n\s+(github.com/whawty/auth/[^\s(]+)', rep)
+            key = 'data-race:' + (fn.group(1).split('/')[-1] if fn else 'unknown')
+            path = os.path.join(self.replay_dir, '%s-%s-race.json' % (self.pid, part))
+            with open(path, 'w') as f:
+                json.dump({'property': self.pid, 'part': part, 'key': key, 'description': rep}, f, indent=1)
+            self.violations.append((key, path, 'the Go race detector reports a data race: ' + ' '.join(rep.split())[:500]))
+            if not os.path.exists(evp):
+                with open(evp, 'w') as f:
+                    json.dump({'coverage': {'evaluations': 1, 'distinct_nontrivial': 0, 'rule': 'race twin aborted by a race report', 'samples': [rep[:300]]}}, f)
+        elif p.returncode != 0:
             tail = '\n'.join(out.splitlines()[-60:])
             raise ToolError('part %s exited with %d:\n%s' % (part, p.returncode, tail))
         if not os.path.exists(evp):
@@ -213,6 +228,8 @@ class Ctx:
             if key in seen:
                 continue
             seen.add(key)
+            if getattr(self, 'replay_key', None) and key != self.replay_key:
+                continue
             kf = known.get((self.pid, key))
             if kf is not None:
                 listed.append((key, kf))
@@ -467,18 +484,57 @@ class PamxPart(Part):
         ctx.log('ran %s in %.1fs: executions=%d cases=%d violation kinds=%s' % (self.name, time.time() - t, cov['evaluations'], cov['cases'], keys))
 
 
+class BindPart(Part):
+    """Binding evidence for mcrewrite + shims: a battery of sequential scenarios is run on the
+    rewritten build (under the scheduler) and on the plain build; all observable results
+    must agree (a disagreement is a tool error)."""
+
+    def __init__(self, name, prop, rewrite_cfg, seq_cfg):
+        super().__init__(name)
+        self.prop, self.rewrite_cfg, self.seq_cfg = prop, rewrite_cfg, seq_cfg
+
+    def parts(self):
+        a = McPart(self.name + '-mc', self.prop, 'cmd/whawty-auth', ['harness/agentmc', 'harness/agentbind/shared', 'harness/agentbind/mc'], self.rewrite_cfg)
+        b = McPart(self.name + '-plain', self.prop, 'cmd/whawty-auth', ['harness/agentbind/shared', 'harness/agentbind/plain'], self.seq_cfg)
+        return a, b
+
+    def warm(self, ctx):
+        for p in self.parts():
+            p.build(ctx)
+
+    def run(self, ctx, replay):
+        a, b = self.parts()
+        res = {}
+        for part, test in ((a, '^TestBindMC$'), (b, '^TestBindPlain$')):
+            binp = part.build(ctx)
+            ev, out = ctx.run_part(part.name, [binp, '-test.run', test, '-test.timeout', '0', '-test.count', '1'], {'VERIF_BIND_PROP': self.prop, 'GOMAXPROCS': '2'})
+            ctx.parts.pop()
+            res[part.name] = sorted(l for l in out.splitlines() if l.startswith('BIND '))
+        la, lb = res[a.name], res[b.name]
+        if la != lb or not la:
+            diff = [x for x in la if x not in lb][:5] + ['---'] + [x for x in lb if x not in la][:5]
+            raise ToolError('binding battery: rewritten and plain build disagree (the rewriter/shims misrepresent the code):\n' + '\n'.join(diff))
+        ctx.add_part(self.name, {'coverage': {
+            'evaluations': len(la), 'traces_validated_against_impl': len(la), 'distinct_nontrivial': len(set(l.split()[1] for l in la)),
+            'rule': 'binding battery: %d observations (every operation result + final directory digests of 5 sequential scenarios: management, local upgrade under two defaults, policy, reload) agree between the mcrewrite build under the scheduler and the plain build' % len(la),
+            'samples': la[:3], 'exhaustive': True}})
+        ctx.log('binding battery: %d observations agree between rewritten and plain build' % len(la))
+
+
 class RwTest(Part):
     """In-package sequential harness (go test) over a partially rewritten package
     (import swaps only, e.g. the virtual clock); no scheduler involved."""
 
-    def __init__(self, name, pkg, harness_dirs, rewrite_cfg, run, thorough_only=False, env=None, agent=False):
+    def __init__(self, name, pkg, harness_dirs, rewrite_cfg, run, thorough_only=False, env=None, agent=False, race=False):
         super().__init__(name, thorough_only)
         self.pkg, self.harness_dirs, self.rewrite_cfg, self.runpat = pkg, harness_dirs, rewrite_cfg, run
         self.env = env or {}
         self.agent = agent
+        self.race = race
 
     def build(self, ctx):
         mp = McPart(self.name, '', self.pkg, self.harness_dirs, self.rewrite_cfg)
+        mp.race = self.race
         return mp.build(ctx)
 
     def warm(self, ctx):
@@ -537,7 +593,7 @@ class McPart(Part):
                 if f.endswith('_test.go'):
                     continue
                 m[os.path.join('internal/verifmc', sub, os.path.basename(f))] = f
-        return ctx.build_test(self.name, self.pkg, self.harness_dirs, extra_mapping=m)
+        return ctx.build_test(self.name, self.pkg, self.harness_dirs, extra_mapping=m, race=getattr(self, 'race', False))
 
     def warm(self, ctx):
         self.build(ctx)
